@@ -153,6 +153,13 @@ type Unit struct {
 	coverStatus   string
 	exitPCs       []Term
 	exitCover     string
+	probes        []probe  // reachability probes (loop bodies, callback bodies): vacuity guard of every run
+	vacuous       []string // probes whose path condition is unsatisfiable under the unit's facts
+}
+
+type probe struct {
+	pc   Term
+	what string
 }
 
 type closureSite struct {
@@ -236,6 +243,14 @@ func (u *Unit) assume(guard, fact Term) {
 		u.usesQuant = true
 	}
 	u.facts = append(u.facts, t.S)
+}
+
+func (u *Unit) posString(pos token.Pos) string {
+	if !pos.IsValid() {
+		return "?"
+	}
+	p := u.w.ld.Prog.Fset.Position(pos)
+	return fmt.Sprintf("%s:%d", shortPath(p.Filename), p.Line)
 }
 
 func (u *Unit) oblige(fr *Frame, kind string, pos token.Pos, text string, guard, goal Term, inferred bool) *Obligation {
